@@ -284,6 +284,24 @@ func ParseSuiteNameFold(name string) (Suite, bool) {
 	return s, ok
 }
 
+// ValidDataTokens reports whether every '-'-separated token of a data-input part belongs to the RFC 6287
+// vocabulary (case-insensitively, unit letter of a time token upper case), irrespective of order and repetition.
+func ValidDataTokens(part string) bool {
+	for _, t := range strings.Split(part, "-") {
+		u := strings.ToUpper(t)
+		switch {
+		case u == "C", u == "S":
+		case len(u) == 4 && u[0] == 'Q' && strings.ContainsRune("NAH", rune(u[1])) && (u[2:] == "08" || u[2:] == "10"):
+		case u == "PSHA1" || u == "PSHA256" || u == "PSHA512":
+		case len(u) == 4 && u[0] == 'S' && allDigits(u[1:]):
+		case len(t) >= 2 && u[0] == 'T' && (allDigits(t[1:]) || (len(t) >= 3 && allDigits(t[1:len(t)-1]) && strings.ContainsRune("SMH", rune(t[len(t)-1])))):
+		default:
+			return false
+		}
+	}
+	return true
+}
+
 func allDigits(s string) bool {
 	if s == "" {
 		return false
